@@ -343,7 +343,9 @@ func (c07) Exec(sci interface{}, env *Env) *Violation {
 	base, v := c07Run(sc, nil, c07MaxN+2, env)
 	if v != nil {
 		if v.Oracle == "liveness" {
-			return viol("harness", "generated program does not halt undisturbed: %s", v.Detail)
+			// the generated program itself is longer than the enumeration budget: not a case
+			env.Class("skipped/program-longer-than-%d-steps", c07MaxN)
+			return nil
 		}
 		return v
 	}
